@@ -52,6 +52,10 @@ TEMPLATES = {
     "cmp_raises_le_second": ["s = snapshot({a})", "assert {a} - 1 <= s", "assert 'x' <= s"],
     "cmp_raises_create": ["s = snapshot()", "assert {a} <= s", "assert 'x' <= s"],
     "cmp_raises_in": ["assert {{}} in snapshot([{a}, {{1: 2}}])", "assert [] in snapshot([[{a}]])"],
+    "cmp_raises_le_not_typeerror": ["assert Decimal(1) <= snapshot(Decimal('NaN'))"],
+    "cmp_raises_ge_valueerror": ["assert Picky(-{a} - 1) >= snapshot(Picky({b}))", "assert {a} == snapshot({b})"],
+    "cmp_raises_le_valueerror_second": ["s = snapshot(Picky({b}))", "assert Picky({a}) <= s", "assert Picky(-1) <= s"],
+    "cmp_raises_create_valueerror": ["s = snapshot()", "assert Picky({a}) <= s", "assert Picky(-2) <= s"],
     "cmp_eq_raises": ["class E:\n        def __eq__(self, o): raise ZeroDivisionError", "assert E() == snapshot({a})"],
     "nested_parent_type_change": ["assert {s!r} == snapshot([snapshot({a} + 0)])"],
     "nested_elem_deleted": ["assert [{a}] == snapshot([{a}, snapshot({b})])"],
@@ -99,6 +103,37 @@ TEMPLATES = {
 }
 
 
+# ordered values whose comparison raises something other than TypeError for some pairs
+PICKY = '''
+
+class Picky:
+    def __init__(self, n):
+        self.n = n
+
+    def __repr__(self):
+        return f"Picky({self.n})"
+
+    def __eq__(self, other):
+        return type(other) is Picky and other.n == self.n
+
+    def _check(self, other):
+        if (self.n < 0) != (other.n < 0):
+            raise ValueError("values of different sign cannot be ordered")
+
+    def __le__(self, other):
+        if type(other) is not Picky:
+            return NotImplemented
+        self._check(other)
+        return self.n <= other.n
+
+    def __ge__(self, other):
+        if type(other) is not Picky:
+            return NotImplemented
+        self._check(other)
+        return self.n >= other.n
+'''
+
+
 def bad_test(rng, k, name):
     a, b = rng.randint(0, 50), rng.randint(51, 99)
     s = rng.choice(["text", "a b", "x'y", "ü"])
@@ -121,7 +156,7 @@ def run_shard(args):
     C = {"files": 0, "runs": 0, "tests_raised": 0, "replacement_sets_checked": 0, "replacements": 0, "templates": {}, "collect_ok": 0}
     out = {"evaluations": 0, "signatures": set(), "samples": [], "violations": [], "counters": C, "inconclusive": []}
     names = sorted(TEMPLATES)
-    header = inproc.HEADER_FULL + "from dirty_equals import IsInt, IsStr\n" + BAD_CLASSES + "\n"
+    header = inproc.HEADER_FULL + "from dirty_equals import IsInt, IsStr\nfrom decimal import Decimal\n" + BAD_CLASSES + PICKY + "\n"
     for c in range(ncases):
         rng = random.Random(f"{args.seed}/{PROP}/{args.shard}/{c}")
         picked = [names[(args.shard * ncases + c) % len(names)]] + [rng.choice(names) for _ in range(rng.randint(2, 6))]
